@@ -1,0 +1,59 @@
+//go:build verif
+
+package risc
+
+import "sync"
+
+// VerifBudgetExceeded is the panic value raised by VerifTick when the tick
+// budget installed with VerifWatch is exhausted.
+type VerifBudgetExceeded struct {
+	Ticks int64
+}
+
+type verifWatch struct {
+	ticks  int64
+	budget int64
+	hook   func(ticks int64)
+}
+
+var (
+	verifMu      sync.Mutex
+	verifWatches = map[*Context]*verifWatch{}
+)
+
+// VerifWatch installs a tick budget (and an optional per-tick hook) for ctx.
+func VerifWatch(ctx *Context, budget int64, hook func(ticks int64)) {
+	verifMu.Lock()
+	defer verifMu.Unlock()
+	verifWatches[ctx] = &verifWatch{budget: budget, hook: hook}
+}
+
+// VerifUnwatch removes the budget of ctx and returns the ticks counted.
+func VerifUnwatch(ctx *Context) int64 {
+	verifMu.Lock()
+	defer verifMu.Unlock()
+	w := verifWatches[ctx]
+	delete(verifWatches, ctx)
+	if w == nil {
+		return 0
+	}
+	return w.ticks
+}
+
+// VerifTick is called once per iteration of every loop of the pipelined Run
+// functions.
+func (ctx *Context) VerifTick() {
+	verifMu.Lock()
+	w := verifWatches[ctx]
+	verifMu.Unlock()
+	if w == nil {
+		return
+	}
+	w.ticks++
+	if w.hook != nil {
+		w.hook(w.ticks)
+	}
+	if w.budget > 0 && w.ticks > w.budget {
+		panic(VerifBudgetExceeded{Ticks: w.ticks})
+	}
+}
